@@ -127,4 +127,30 @@ theorem wrapS32_id (x : Int) (h0 : -(2 ^ 31) ≤ x) (h1 : x < 2 ^ 31) : wrapS 32
   rw [BitVec.toInt_ofInt]
   apply Int.bmod_eq_of_le <;> omega
 
+/-! `CSem.shlRaw` (variable-count shift with the exponent capped at 64) agrees with the uncapped product after every wrap of at most 64 bits. -/
+theorem two_pow_dvd (n m : Nat) (h : n ≤ m) : (2 ^ n : Int) ∣ 2 ^ m :=
+  ⟨2 ^ (m - n), by rw [← Int.pow_add]; congr 1; omega⟩
+theorem shlRaw_emod (n : Nat) (hn : n ≤ 64) (a k : Int) :
+    shlRaw a k % (2 ^ n : Int) = (a * 2 ^ k.toNat) % (2 ^ n : Int) := by
+  unfold shlRaw
+  by_cases h : k.toNat ≤ 64
+  · rw [Nat.min_eq_left h]
+  · have h64 : 64 < k.toNat := by omega
+    rw [Nat.min_eq_right (by omega)]
+    have d1 : (2 ^ n : Int) ∣ a * 2 ^ 64 := (Int.dvd_trans (two_pow_dvd _ _ hn) (Int.dvd_mul_left a _))
+    have d2 : (2 ^ n : Int) ∣ a * 2 ^ k.toNat := (Int.dvd_trans (two_pow_dvd _ _ (by omega)) (Int.dvd_mul_left a _))
+    rw [Int.emod_eq_zero_of_dvd d1, Int.emod_eq_zero_of_dvd d2]
+
+theorem shlRaw_wrapU (n : Nat) (hn : n ≤ 64) (a k : Int) :
+    wrapU n (shlRaw a k) = wrapU n (a * 2 ^ k.toNat) := shlRaw_emod n hn a k
+
+theorem shlRaw_wrapS (n : Nat) (hn : n ≤ 64) (a k : Int) :
+    wrapS n (shlRaw a k) = wrapS n (a * 2 ^ k.toNat) := by
+  unfold wrapS
+  rw [BitVec.toInt_ofInt, BitVec.toInt_ofInt]
+  unfold Int.bmod
+  have := shlRaw_emod n hn a k
+  simp only [Int.natCast_pow, Int.cast_ofNat_Int] at *
+  rw [this]
+
 end Bits
